@@ -130,6 +130,13 @@ def oracle(case, impl):
         so = sp.get('outputs')
         if so not in (None, 'EMPTY', 'BARE') and c.get('outputs') != so: out.append(('passthrough:outputs', f'filter {i}: --outputs {so!r} became {c.get("outputs")!r}'))
         if so == 'BARE' and 'outputs' in c and not auto_out[i]: out.append(('passthrough:outputs', f'filter {i}: bare --outputs became {c.get("outputs")!r}'))
+        if so == 'BARE' and 'outputs' in c:
+            # an explicitly emptied --outputs may only be filled again because another filter names this filter's id in its own explicit --sources
+            myid = c.get('id')
+            named = any(j != i and isinstance(sp2.get('sources'), str) and sp2['sources'] not in ('EMPTY', 'BARE') and
+                        any(re.split(r'[;!?]', u.strip())[0].strip() == myid for u in sp2['sources'].split(','))
+                        for j, sp2 in enumerate(spec))
+            if not named: out.append(('passthrough:outputs-emptied', f'filter {i} ({myid}): explicit empty --outputs became {c.get("outputs")!r} although no filter names it as a source'))
         for k, v in sp.get('extra', []):
             if c.get(k, '<missing>') != canon_val(v): out.append(('passthrough:option', f'filter {i}: --{k} {v!r} became {c.get(k, "<missing>")!r}'))
     # --- resolution, suffixes
